@@ -7,6 +7,7 @@ mod crash;
 mod exec;
 mod gen;
 mod hist;
+mod iofault;
 mod lin;
 mod logsim;
 mod plan;
